@@ -107,7 +107,7 @@ pub fn mutate(rng: &mut Rng, text: &str) -> String {
             _ => {
                 // digits glued to letters
                 let at = rng.below(cs.len() + 1);
-                let d: Vec<char> = format!("{}", rng.below(100000)).chars().collect();
+                let d: Vec<char> = if rng.chance(1, 5) { format!("{}{}", rng.next() % 10_000_000_000, rng.next() % 10_000_000_000) } else { format!("{}", rng.below(100000)) }.chars().collect();
                 let tail = cs.split_off(at);
                 cs.extend(d);
                 cs.extend(tail);
